@@ -314,6 +314,27 @@ theorem c19_start_mid_step_breaks_exclusion :
       simp only [hr, Option.map_some, Option.some.injEq, Prod.mk.injEq] at h2
       exact ⟨s, hr, h2.1, h2.2.1, h2.2.2⟩
 
+/-! ### every response comes out of a critical section -/
+
+/-- the server only ever writes a response (`sSent`) from the program point that is reached by `pthread_mutex_unlock`, and that
+program point is entered by nothing but the unlock that ends a critical section entered through `sLock` (for `/simulation`:
+with `reb_simulation_save_to_stream` inside): a response produced without taking the mutex — e.g. a cached snapshot sent
+again — is not an execution of the protocol, and a logged trace containing one is rejected by the acceptor -/
+theorem c19_reply_only_after_critical_section (s s' : State) (e : Ev) (h : step s e = some s') :
+    (e = .sSent → s.spc = .sending) ∧ (s'.spc = .sending → s.spc ≠ .sending → (e = .sUnlock ∧ s.spc = .ncClr)) := by
+  obtain ⟨ipc, spc, owner, nc, sim, snap, served, up, il, rc, ub, me⟩ := s
+  cases e <;> simp only [step, setPhase] at h <;> (repeat' split at h) <;>
+    simp only [Option.some.injEq, reduceCtorEq] at h <;> subst h <;> simp_all
+
+/-- and the only way into `ncClr` for a `/simulation` request is through the serialisation under the lock:
+`holding → serialising → serialised → ncClr` (`/keyboard` goes `holding → ncClr` without serialising) -/
+theorem c19_serialisation_is_inside_the_critical_section (tr : List Ev) (s : State) (h : Exec tr s) (hq : s.racy = false)
+    (hs : s.spc = .serialising ∨ s.spc = .serialised) : s.owner = some .S ∧ s.needCopy = true := by
+  have i := exec_inv h hq
+  rcases hs with hs | hs
+  · exact ⟨i.ownS.mpr (by simp [hs, critS]), i.nc.mpr (by simp [hs, ncHigh])⟩
+  · exact ⟨i.ownS.mpr (by simp [hs, critS]), i.nc.mpr (by simp [hs, ncHigh])⟩
+
 /-! ### what an accepted trace means -/
 
 /-- soundness of the trace acceptor `drv_c19` runs on the shim's logs: if a list of observed
@@ -429,7 +450,7 @@ example : (run init [.xStart, .iEnter, .iChkBegin, .iChkEnd true, .iSeeSrv true,
 /-- a complete integrate() call of two steps with a request served in between, accepted from
 what the shim can observe (silent events guessed by the acceptor) -/
 example : (accept ([.xStart, .iEnter, .iChkBegin, .iChkEnd true, .iLock, .iStepBegin, .iStepEnd, .iUnlock,
-    .iChkBegin, .sLock, .sSerBegin, .iChkSync, .iChkEnd true, .iSpin, .sSerEnd, .sUnlock, .iLock,
+    .iChkBegin, .sLock, .sSerBegin, .iChkSync, .iChkEnd true, .iSpin, .sSerEnd, .sUnlock, .sSent, .iLock,
     .iStepBegin, .iStepEnd, .iUnlock, .iChkBegin, .iChkEnd false, .iEpiSync, .iLeave].map
     (fun e => ⟨e, none⟩))).toOption.map
       (fun l => !l.isEmpty && l.all (fun s => s.sim == boundary 2 3 && s.served == 1))
@@ -441,7 +462,7 @@ example : (match accept ([.xStart, .iEnter, .iChkBegin, .iChkEnd true, .iLock, .
 
 /-- a server started while the simulation is paused inside `reb_check_exit`: the first iteration
 after the resume must take the mutex (a loop that had cached `r->server_data == NULL` is rejected) -/
-example : ((accept ([.iEnter, .iChkBegin, .xStart, .sLock, .sSerBegin, .sSerEnd, .sUnlock, .iChkEnd true,
+example : ((accept ([.iEnter, .iChkBegin, .xStart, .sLock, .sSerBegin, .sSerEnd, .sUnlock, .sSent, .iChkEnd true,
       .iLock, .iStepBegin, .iStepEnd, .iUnlock].map (fun e => ⟨e, none⟩))).toOption.map
       (fun l => !l.isEmpty && l.all (fun s => !s.racy && s.served == 1 && s.sim.steps == 1)),
     match accept ([.iEnter, .iChkBegin, .xStart, .iChkEnd true, .iStepBegin].map (fun e => ⟨e, none⟩)) with
